@@ -80,11 +80,15 @@ Definition cache := option Z.
 
 Record cfg : Type := mkCfg {
   c_fixed : bool;    (* Find resets the read limit of the schema message (the fix of F10) *)
+  c_cut : bool;      (* inside the default value of a type, a null field of that type is written as ()
+                        (the fix of the unbounded recursion on recursive types) *)
   c_limit0 : Z;      (* limit of a freshly unmarshalled message: 64 MiB *)
   c_reset : Z }.     (* the limit Find resets to *)
 
-Definition cfg_prefix : cfg := mkCfg false 67108864 0.
-Definition cfg_fixed : cfg := mkCfg true 67108864 18446744073709551615.
+Definition cfg_prefix : cfg := mkCfg false false 67108864 0.
+Definition cfg_fixed : cfg := mkCfg true true 67108864 18446744073709551615.
+(* F10 fixed, recursion on recursive types not yet cut *)
+Definition cfg_nocut : cfg := mkCfg true false 67108864 18446744073709551615.
 
 Definition M (A : Type) : Type := cache -> res (A * cache).
 Definition ret {A} (a : A) : M A := fun st => Ok (a, st).
@@ -223,7 +227,7 @@ Definition lift {A} (r : res A) : M A :=
   fun st => match r with Ok a => Ok (a, st) | Err e => Err e | OutOfFuel => OutOfFuel end.
 
 (* marshalStruct / marshalFieldValue / marshalList *)
-Fixpoint shown_struct (ffmt : Z -> Z -> list Z) (c : cfg) (sc : schema) (fuel : nat) (id : Z) (data : list Z) (ptrs : list rval) {struct fuel} : M tval :=
+Fixpoint shown_struct (ffmt : Z -> Z -> list Z) (c : cfg) (sc : schema) (fuel : nat) (exp : list Z) (id : Z) (data : list Z) (ptrs : list rval) {struct fuel} : M tval :=
   match fuel with
   | O => fun _ => OutOfFuel
   | S f =>
@@ -241,7 +245,7 @@ Fixpoint shown_struct (ffmt : Z -> Z -> list Z) (c : cfg) (sc : schema) (fuel : 
                 else
                   charge (f_ncost fd) ;;                  (* f.NameBytes() *)
                   match k with
-                  | FGroup gid => v <- shown_struct ffmt c sc f gid data ptrs ;; ret (Some v)
+                  | FGroup gid => v <- shown_struct ffmt c sc f exp gid data ptrs ;; ret (Some v)
                   | FSlot off t dflt dptr tcost dvcost dpcost =>
                     charge tcost ;;                       (* f.Slot().Type() *)
                     charge dvcost ;;                      (* f.Slot().DefaultValue() *)
@@ -253,9 +257,16 @@ Fixpoint shown_struct (ffmt : Z -> Z -> list Z) (c : cfg) (sc : schema) (fuel : 
                          | TFloat bits => ret (TvFloat (ffmt bits (Z.lxor (get_le data (off * (bits / 8)) (bits / 8)) dflt)))
                          | TStruct sid =>
                            let p := ptr_at ptrs off in
-                           p' <- (if is_null p then charge dpcost ;; ret dptr else ret p) ;;   (* dv.StructValue() *)
-                           let (d, ps) := as_struct p' in
-                           shown_struct ffmt c sc f sid d ps
+                           if is_null p then
+                             (* the default value of the field; [exp] = enc.defaults *)
+                             if c_cut c && existsb (Z.eqb sid) exp then ret (TvStruct FNil)
+                             else
+                               charge dpcost ;;                                     (* dv.StructValue() *)
+                               let (d, ps) := as_struct dptr in
+                               shown_struct ffmt c sc f (sid :: exp) sid d ps
+                           else
+                             let (d, ps) := as_struct p in
+                             shown_struct ffmt c sc f exp sid d ps
                          | TData =>
                            let p := ptr_at ptrs off in
                            if is_null p then charge dpcost ;; ret (TvStr (data_bytes dptr))   (* dv.Data() *)
@@ -268,7 +279,7 @@ Fixpoint shown_struct (ffmt : Z -> Z -> list Z) (c : cfg) (sc : schema) (fuel : 
                            charge ecost ;;                (* typ.List().ElementType() *)
                            let p := ptr_at ptrs off in
                            p' <- (if is_null p then charge dpcost ;; ret dptr else ret p) ;;   (* dv.List() *)
-                           shown_list ffmt c sc f e p'
+                           shown_list ffmt c sc f exp e p'
                          | TEnum eid => shown_enum c sc eid (Z.lxor (get_le data (off * 2) 2) dflt)
                          | TInterface =>
                            ret (if is_null (ptr_at ptrs off) then TvIdent ident_null else TvMarker marker_cap)
@@ -282,7 +293,7 @@ Fixpoint shown_struct (ffmt : Z -> Z -> list Z) (c : cfg) (sc : schema) (fuel : 
     | Some _ => fail ENotStruct
     end
   end
-with shown_list (ffmt : Z -> Z -> list Z) (c : cfg) (sc : schema) (fuel : nat) (e : ty) (l : rval) {struct fuel} : M tval :=
+with shown_list (ffmt : Z -> Z -> list Z) (c : cfg) (sc : schema) (fuel : nat) (exp : list Z) (e : ty) (l : rval) {struct fuel} : M tval :=
   match fuel with
   | O => fun _ => OutOfFuel
   | S f =>
@@ -296,12 +307,12 @@ with shown_list (ffmt : Z -> Z -> list Z) (c : cfg) (sc : schema) (fuel : nat) (
     | TText => ps <- lift (ptr_elems l) ;; ret (TvList (tvals_of (map (fun p => TvStr (text_bytes p)) ps)))
     | TStruct sid =>
       ps <- lift (ptr_elems l) ;;
-      vs <- collect_elems (fun p => let (d, pp) := as_struct p in shown_struct ffmt c sc f sid d pp) ps ;;
+      vs <- collect_elems (fun p => let (d, pp) := as_struct p in shown_struct ffmt c sc f exp sid d pp) ps ;;
       ret (TvList vs)
     | TList ecost ee =>
       charge ecost ;;                                     (* elem.List().ElementType() *)
       ps <- lift (ptr_elems l) ;;
-      vs <- collect_elems (fun p => shown_list ffmt c sc f ee p) ps ;;
+      vs <- collect_elems (fun p => shown_list ffmt c sc f exp ee p) ps ;;
       ret (TvList vs)
     | TEnum eid =>
       xs <- lift (prim_elems 16 l) ;;
@@ -368,7 +379,7 @@ with print_fields (first : bool) (fs : tfields) : list Z :=
 Definition encode (ffmt : Z -> Z -> list Z) (c : cfg) (sc : schema) (fuel : nat) (id : Z) (v : rval)
     (st : cache) : res (list Z) * cache :=
   let (d, ps) := as_struct v in
-  match shown_struct ffmt c sc fuel id d ps st with
+  match shown_struct ffmt c sc fuel [] id d ps st with
   | Ok (t, st') => (Ok (print t), st')
   | Err e => (Err e, Some 0)
   | OutOfFuel => (OutOfFuel, st)
@@ -377,7 +388,7 @@ Definition encode (ffmt : Z -> Z -> list Z) (c : cfg) (sc : schema) (fuel : nat)
 (* the value tree shown by Encode on a fresh encoder (the field values the text displays) *)
 Definition shown (ffmt : Z -> Z -> list Z) (c : cfg) (sc : schema) (fuel : nat) (id : Z) (v : rval) : res tval :=
   let (d, ps) := as_struct v in
-  match shown_struct ffmt c sc fuel id d ps None with
+  match shown_struct ffmt c sc fuel [] id d ps None with
   | Ok (t, _) => Ok t
   | Err e => Err e
   | OutOfFuel => OutOfFuel
